@@ -22,7 +22,7 @@ TraceFile == IOEnv.ORB_TRACE
 Trace == ndJsonDeserialize(TraceFile)
 
 \* which property predicates this run evaluates (driver passes a comma-less list via env)
-PropIds == {"C01", "C02", "C03", "C04", "C05", "C06", "C07", "C13", "C19", "C14", "C15", "C16", "C20", "C17b", "C08", "C09", "C10", "C11", "C12", "C17", "C18"}
+PropIds == {"C01", "C02", "C03", "C04", "C05", "C06", "C07", "C13", "C19", "C14", "C15", "C16", "C20", "C17b", "C17c", "C08", "C09", "C10", "C11", "C12", "C17", "C18"}
 
 -----------------------------------------------------------------------------
 (* JSON -> specification values                                            *)
@@ -171,7 +171,7 @@ PropHolds(c, S) ==
     [] c = "C04" -> Prop_C04(S) [] c = "C05" -> Prop_C05(S) [] c = "C06" -> Prop_C06(S) [] c = "C08" -> Prop_C08(S)
     [] c = "C09" -> Prop_C09(S) [] c = "C10" -> Prop_C10(S) [] c = "C11" -> Prop_C11(S)
     [] c = "C07" -> Prop_C07(S) [] c = "C13" -> Prop_C13(S) [] c = "C19" -> Prop_C19(S)
-    [] c = "C14" -> Prop_C14(S) [] c = "C15" -> Prop_C15(S) [] c = "C16" -> Prop_C16(S) [] c = "C20" -> Prop_C20(S) [] c = "C17b" -> Prop_C17b(S) [] c = "C12" -> Prop_C12(S) [] c = "C17" -> Prop_C17(S) [] c = "C18" -> Prop_C18(S)
+    [] c = "C14" -> Prop_C14(S) [] c = "C15" -> Prop_C15(S) [] c = "C16" -> Prop_C16(S) [] c = "C20" -> Prop_C20(S) [] c = "C17b" -> Prop_C17b(S) [] c = "C17c" -> Prop_C17c(S) [] c = "C12" -> Prop_C12(S) [] c = "C17" -> Prop_C17(S) [] c = "C18" -> Prop_C18(S)
     [] OTHER -> TRUE
 
 \* antecedent flags: on which properties this step is a non-trivial evaluation
@@ -206,9 +206,22 @@ Detail(ev, S) ==
        {<<S.idres[i].cp, {f \in DOMAIN M[i] : M[i][f] # S.idres[i][f]}>> : i \in {j \in DOMAIN M : M[j] # S.idres[j]}}
   ELSE {}
 
+\* Every behaviour runs on a fresh branch of the genesis state, and everything executed before it in
+\* the same process ran on branches that were DISCARDED.  If the module's own state is nevertheless
+\* different from genesis at the start of a behaviour, state leaked through process memory (a cache
+\* that is not rolled back with the context): that is a violation of the property governing that
+\* piece of state, not a harness fault.  Differences in the ledger / environment remain integrity
+\* failures (the harness owns those).
+StartViol(k) ==
+  LET ev == Trace[k]  s == JSt(ev.pre) IN
+  IF ev.i # 1 THEN {}
+  ELSE (IF <<s.pProto, s.pCC>> # <<InitSt.pProto, InitSt.pCC>> THEN {"C08"} ELSE {})
+       \cup (IF s.pAct # InitSt.pAct THEN {"C09"} ELSE {})
+       \cup (IF <<s.maxPT, s.hasParams>> # <<InitSt.maxPT, InitSt.hasParams>> THEN {"C18"} ELSE {})
+       \cup (IF <<s.amt, s.cnt>> # <<InitSt.amt, InitSt.cnt>> THEN {"C12"} ELSE {})
 Integrity(k) ==
   LET ev == Trace[k] IN
-  IF ev.i = 1 THEN (IF JSt(ev.pre) = InitSt THEN {} ELSE {"starts-at-init"})
+  IF ev.i = 1 THEN (IF <<JSt(ev.pre).bal, JSt(ev.pre).supply, JSt(ev.pre).env>> = <<InitSt.bal, InitSt.supply, InitSt.env>> THEN {} ELSE {"starts-at-init"})
   ELSE IF k > 1 /\ Trace[k - 1].b = ev.b /\ Trace[k - 1].i = ev.i - 1 /\ Trace[k - 1].post = ev.pre
        THEN {} ELSE {"continuity"}
 
@@ -222,7 +235,7 @@ Report ==
   l > 1 =>
     LET k == l - 1  ev == Trace[k]  S == ToStep(ev)
         mism == Mismatch_(ev, S)
-        viol == {c \in PropIds : ~PropHolds(c, S)}
+        viol == {c \in PropIds : ~PropHolds(c, S)} \cup StartViol(k)
         integ == Integrity(k)
     IN PrintT("@S " \o ToJson([k |-> k, b |-> ev.b, i |-> ev.i, why |-> Apply(S.pre, ev.in).why, ok |-> S.ok,
                                 ante |-> Ante(S), mism |-> mism, viol |-> viol, integ |-> integ,
